@@ -157,6 +157,14 @@ example := C06_layering_chunked Ex.headTE Ex.chunks Ex.last [.byte 7, .pause]
   (by decide +kernel) (by decide +kernel) (by decide +kernel) (by decide +kernel) (by decide +kernel)
   (by decide +kernel)
 
+/-- … with a trailer section behind the last-chunk -/
+example := C06_layering_chunked Ex.headTE Ex.chunks Ex.lastT [.byte 7, .pause]
+  (Ex.seg (Ex.headTE.render ++ encChunks Ex.chunks ++ Ex.lastT.enc) ++ [.data [7], .pause]) 8 4 100 .get
+  [0, 3, 100, 1, 5, 5, 0, 2]
+  (by decide +kernel) (by decide) (by decide) (by decide +kernel) (by decide +kernel)
+  (by decide +kernel) (by decide +kernel) (by decide +kernel) (by decide +kernel) (by decide +kernel)
+  (by decide +kernel)
+
 /-- and for a close-delimited body -/
 theorem C06_layering_close (h : HeadS) (body : Bytes)
     (t : Transport) (cap maxBuf mh : Nat) (m : Method) (ns : List Nat)
